@@ -273,6 +273,36 @@ def run(ctx: Any, prog: Program) -> None:
                         ok, why = local_verdict[id(n)]
                     elif isinstance(v, ast.Call) and dotted(v.func) == 'round':
                         why = 'round() after normalisation: a value in [359.9999995, 360) becomes exactly 360.0'
+                    elif isinstance(v, ast.Call) and dotted(v.func) == 'float' and len(v.args) == 1 and (double_mod(v.args[0]) or single_mod(v.args[0])):
+                        ok = double_mod(v.args[0])
+                        why = '' if ok else 'single `% 360`: a tiny negative value wraps to exactly 360.0'
+                    elif isinstance(v, ast.Call) and isinstance(v.func, ast.Name) and v.func.id in mt.all_funcs() and len(mt.all_funcs()[v.func.id]) == 1:
+                        # a module-level helper: what it returns decides
+                        hf = mt.all_funcs()[v.func.id][0]
+                        hverd = local_store_verdicts(hf)
+                        rets_ = [r for r in walk_no_nested(hf) if isinstance(r, ast.Return) and r.value is not None]
+                        verdicts_: List[Optional[bool]] = []
+                        for r in rets_:
+                            rv = r.value
+                            if isinstance(rv, ast.IfExp):
+                                parts_ = [rv.body, rv.orelse]
+                            else:
+                                parts_ = [rv]
+                            for pv in parts_:
+                                if double_mod(pv) or (isinstance(pv, ast.Constant) and isinstance(pv.value, (int, float)) and 0 <= pv.value < 360):
+                                    verdicts_.append(True)
+                                elif single_mod(pv) or (isinstance(pv, ast.Call) and dotted(pv.func) == 'round'):
+                                    verdicts_.append(False)
+                                else:
+                                    verdicts_.append(None)
+                        if rets_ and all(x is True for x in verdicts_):
+                            ok = True
+                        elif any(x is False for x in verdicts_):
+                            why = f'{v.func.id}() can return a value normalised by a single `% 360` / rounded after normalisation'
+                        else:
+                            ctx.shape('C05.G1', False, mt, n, f'store to {U(t)} through {v.func.id}(): what the helper returns (`{U(rets_[0].value)[:60] if rets_ else "nothing"}`) is not one of the enumerated normalised forms - '
+                                      'range not decided', func=qual, text=f'{U(t)} = {U(v)[:80]}')
+                            continue
                     else:
                         why = 'not a recognised normalised form'
                     ctx.check('C05.G1', ok, mt, n, f'store to {U(t)}: {why or "normalised"}', func=qual,
